@@ -41,6 +41,27 @@ use crate::util::{self, secp, ToHex};
 use rand::rngs::mock::StepRng;
 use rand::thread_rng;
 
+/// Verification hook (only compiled with `--cfg grin_wallet_verif`): a callback fired
+/// around every persistent effect of the backend (batch commit, stored-tx file write).
+/// Returning `false` from a "begin" event makes that effect fail with an error.
+#[cfg(grin_wallet_verif)]
+pub mod verif_effects {
+	use std::sync::{Arc, RwLock};
+	static HOOK: RwLock<Option<Arc<dyn Fn(&str) -> bool + Send + Sync>>> = RwLock::new(None);
+	/// Install (or clear) the effect callback
+	pub fn set(f: Option<Arc<dyn Fn(&str) -> bool + Send + Sync>>) {
+		*HOOK.write().unwrap() = f;
+	}
+	/// Fire an event; true = proceed
+	pub fn fire(kind: &str) -> bool {
+		let f = HOOK.read().unwrap().clone();
+		match f {
+			Some(f) => f(kind),
+			None => true,
+		}
+	}
+}
+
 pub const DB_DIR: &str = "db";
 pub const TX_SAVE_DIR: &str = "saved_txs";
 
@@ -454,10 +475,18 @@ where
 			.join(TX_SAVE_DIR)
 			.join(filename);
 		let path_buf = Path::new(&path).to_path_buf();
+		#[cfg(grin_wallet_verif)]
+		{
+			if !verif_effects::fire("store_tx_begin") {
+				return Err(Error::Backend("injected fault: store_tx".to_owned()));
+			}
+		}
 		let mut stored_tx = File::create(path_buf)?;
 		let tx_hex = ser::ser_vec(tx, ser::ProtocolVersion(1)).unwrap().to_hex();
 		stored_tx.write_all(&tx_hex.as_bytes())?;
 		stored_tx.sync_all()?;
+		#[cfg(grin_wallet_verif)]
+		verif_effects::fire("store_tx_end");
 		Ok(())
 	}
 
@@ -836,8 +865,16 @@ where
 	}
 
 	fn commit(&self) -> Result<(), Error> {
+		#[cfg(grin_wallet_verif)]
+		{
+			if !verif_effects::fire("commit_begin") {
+				return Err(Error::Backend("injected fault: commit".to_owned()));
+			}
+		}
 		let db = self.db.replace(None);
 		db.unwrap().commit()?;
+		#[cfg(grin_wallet_verif)]
+		verif_effects::fire("commit_end");
 		Ok(())
 	}
 }
